@@ -103,6 +103,31 @@ def classify(msg, ops):
     return "C08:" + ("loop" if "loop countdown" in msg else "tell" if "tell()" in msg else "handover" if "handed" in msg else "step:" + msg.split("'")[1] if "'" in msg else "step")
 
 
+def loop_attribute_is_a_report(env, res):
+    """``RenderIterator.loop`` is documented as a read-out ("modifying this doesn't affect
+    the iterator"): whatever the caller writes there, the countdown and what a seek between
+    two loops is relative to stay those of the model."""
+    from term_image.renderable import Seek
+
+    for loops, written, ok in ((1, 5, False), (2, 1, True), (3, 1, True), (2, -1, True)):
+        cfg = dict(n=3, loops=loops, cache=False, dur0=7, size0=[2, 1], pad0=ih.PADS[0], kind="text", tag0=0, tell0=0)
+        it = ih.make_iterator(ih.make_subject(cfg), cfg)
+        for _ in range(3):
+            next(it)
+        it.loop = written
+        try:
+            it.seek(0, Seek.CURRENT)
+            got = True
+        except ValueError:
+            got = False
+        rest = sum(1 for _ in it)
+        res.count("steps compared with the model", 2)
+        want_rest = 3 * (loops - 1) + (3 if ok else 0) if ok else 0
+        # (an accepted seek to frame 0 at the boundary stays in the current loop)
+        if got != ok or rest != want_rest:
+            res.violation("C08:step:seek", "loops=%d, one loop consumed, caller wrote loop=%r: seek(0, CURRENT) %s and %d more frames followed; the model (unaffected by the write) says %s and %d" % (loops, written, "accepted" if got else "rejected", rest, "accepted" if ok else "rejected", want_rest), dict(cfg=cfg, ops=[["next"]] * 3))
+
+
 def run_shard(shard, env):
     res = Result(shard)
     try:
@@ -115,6 +140,8 @@ def run_shard(shard, env):
             return res.as_dict()
         tier = shard["tier"]
         nex = 0
+        if shard["index"] == 0:
+            loop_attribute_is_a_report(env, res)
         for n in (2, 3):
             for loops in (1, 2):
                 for cache in (False, True):
